@@ -102,7 +102,7 @@ def run_tasks(tasks, procs=None):
             results[i] = _run_task(i)[1]
         return results
     ctx = multiprocessing.get_context('fork')
-    with ctx.Pool(procs) as pool:
+    with ctx.Pool(procs, maxtasksperchild=1) as pool:
         for i, out in pool.imap_unordered(_run_task, range(len(tasks)), chunksize=1):
             results[i] = out
     return results
